@@ -342,9 +342,236 @@ func c09Gen(t *rapid.T) c09Case {
 	return c
 }
 
+
+// ---- leak lane: discarded frames still count for flow control ------------------
+//
+// One offence repeated on stream after stream, each followed by DATA that a
+// conforming peer may have in flight (it has not read the server's RST_STREAM
+// yet), until more than two connection windows have moved. The sender keeps a
+// ledger from the server's SETTINGS and WINDOW_UPDATE frames and never
+// exceeds it; if discarded octets are not handed back, the ledger runs dry.
+
+type c09LeakCase struct {
+	Off       string `json:"off"`        // malformed | toobig | toobig-cl | refused
+	Chunk     int    `json:"chunk"`      // data octets per in-flight frame
+	Pad       int    `json:"pad"`        // 0 = unpadded, else pad length + 1
+	PerStream int    `json:"per_stream"` // flow-controlled octets in flight per offending stream
+	GoodEvery int    `json:"good_every"` // a well-formed upload every n-th round (0 = never)
+	Windows   int    `json:"windows"`    // tenths of the initial connection window to move in total
+}
+
+var c09LeakOffs = []string{"malformed", "toobig", "toobig-cl", "refused"}
+
+func c09LeakRun(c c09LeakCase) Outcome {
+	const maxStreams = 3
+	resps := map[string]peer.Resp{}
+	for i := 0; i < maxStreams; i++ {
+		resps[fmt.Sprintf("fill%d", i)] = peer.Resp{Status: 200, Gate: true}
+	}
+	h := peer.Start(peer.Config{MaxConcurrentStreams: maxStreams, MaxRequestBodySize: c09MaxBody, Responses: resps, DefaultResp: peer.Resp{Status: 200, BodyLen: 2}})
+	defer h.Close()
+	h.SendSettings(nil)
+	quiesce := func(where string) *Outcome {
+		for {
+			if ok, d := h.Quiesce(); !ok {
+				return &Outcome{Inconcl: "no quiescence " + where + ": " + d}
+			}
+			if !h.Replenish() {
+				return nil
+			}
+		}
+	}
+	if o := quiesce("after the handshake"); o != nil {
+		return *o
+	}
+	// the sender's ledger
+	credits := func() (conn int64, streamInit int64) {
+		conn, streamInit = 65535, 65535
+		for _, e := range h.EventsCopy() {
+			switch {
+			case e.Kind == "window" && e.Stream == 0:
+				conn += int64(e.Incr)
+			case e.Kind == "settings":
+				for _, kv := range e.Settings {
+					if kv[0] == 4 {
+						streamInit = int64(kv[1])
+					}
+				}
+			}
+		}
+		return
+	}
+	startConn, streamInit := credits()
+	var sent int64
+	id := uint32(1)
+	var fills []string
+	var goods []struct {
+		req peer.Req
+		id  uint32
+	}
+	if c.Off == "refused" {
+		for i := 0; i < maxStreams; i++ {
+			ft := fmt.Sprintf("fill%d", i)
+			sendReq(h, id, simpleReq(ft))
+			fills = append(fills, ft)
+			id += 2
+		}
+		if o := quiesce("after the fillers"); o != nil {
+			return *o
+		}
+	}
+	cost := int64(c.Chunk)
+	if c.Pad > 0 {
+		cost += int64(c.Pad)
+	}
+	payload := make([]byte, c.Chunk)
+	frame := func(sid uint32) []byte {
+		if c.Pad > 0 {
+			return rawframe.Append(nil, rawframe.Data, rawframe.FlagPadded, sid, rawframe.Padded(payload, c.Pad-1, 0))
+		}
+		return rawframe.Append(nil, rawframe.Data, 0, sid, payload)
+	}
+	target := startConn * int64(c.Windows) / 10
+	rounds, offending, frames := 0, 0, 0
+	starved := ""
+	for sent < target && rounds < 400 && frames < 60000 {
+		rounds++
+		conn, _ := credits()
+		avail := conn - sent
+		if avail < c09MaxBody {
+			starved = fmt.Sprintf("after %d offending streams (%q, each followed by in-flight DATA frames of %d octets + %d of padding) and %d flow-controlled octets sent within the advertised windows, the server is quiescent, has granted %d octets of connection window in all (initial %d) and leaves the sender %d: a well-formed request with a %d-octet body can no longer be sent", offending, c.Off, c.Chunk, cost-int64(c.Chunk), sent, conn, startConn, avail, c09MaxBody)
+			break
+		}
+		if avail < c09MaxBody+1+cost {
+			break // not starved, but not enough for another offending round either
+		}
+		if c.GoodEvery > 0 && rounds%c.GoodEvery == 0 && c.Off != "refused" {
+			r := simpleReq(fmt.Sprintf("good%d", rounds))
+			r.Method = "POST"
+			r.BodyLen = 1 + rounds*37%1500
+			sendReq(h, id, r)
+			sent += int64(r.BodyLen)
+			goods = append(goods, struct {
+				req peer.Req
+				id  uint32
+			}{r, id})
+			id += 2
+			if o := quiesce("after a good upload"); o != nil {
+				return *o
+			}
+			continue
+		}
+		sid := id
+		id += 2
+		offending++
+		h.OpenStream(sid)
+		r := simpleReq(fmt.Sprintf("off%d", rounds))
+		r.Method = "POST"
+		list := r.HeaderList()
+		switch c.Off {
+		case "malformed":
+			list = append(list, peer.FieldSpec{F: refhpack.Field{Name: "connection", Value: "close"}, R: refhpack.Rep{Kind: 2}})
+		case "toobig-cl":
+			list = append(list, peer.FieldSpec{F: refhpack.Field{Name: "content-length", Value: strconv.Itoa(c09MaxBody + 1)}, R: refhpack.Rep{Kind: 2, NameIdx: true}})
+		}
+		block := h.EncodeBlock(nil, list)
+		for _, f := range peer.SplitBlock(sid, block, nil, false, 0, false, 0, false, 0) {
+			_ = h.Write(f)
+		}
+		budget := avail
+		if c.Off == "toobig" {
+			// the frame that takes the body over the limit; what follows is in flight
+			_ = h.Write(rawframe.Append(nil, rawframe.Data, 0, sid, make([]byte, c09MaxBody+1)))
+			sent += c09MaxBody + 1
+			budget -= c09MaxBody + 1
+		}
+		if int64(c.PerStream) < budget {
+			budget = int64(c.PerStream)
+		}
+		if streamInit < budget {
+			budget = streamInit
+		}
+		if target-sent+cost < budget {
+			budget = target - sent + cost
+		}
+		for n := 0; budget >= cost && n < 20000; n++ {
+			_ = h.Write(frame(sid))
+			frames++
+			budget -= cost
+			sent += cost
+		}
+		if o := quiesce("after offending stream " + c.Off); o != nil {
+			return *o
+		}
+		if ga := peer.GoAways(h.EventsCopy()); len(ga) > 0 {
+			return fail("leak-goaway:"+c.Off+":"+peer.CodeName(ga[0].Code), "offence %q on stream %d followed by in-flight DATA within the advertised windows: the server tore the connection down with GOAWAY(last=%d, %s, %q)", c.Off, sid, ga[0].Last, peer.CodeName(ga[0].Code), ga[0].Debug)
+		}
+	}
+	cls := []string{"leak:" + c.Off, fmt.Sprintf("leak-moved-windows=%d", sent/startConn)}
+	if c.Pad > 0 {
+		cls = append(cls, "leak-padded")
+	}
+	if starved != "" {
+		return fail("conn-window-starved:"+c.Off, "%s", starved)
+	}
+	for _, f := range fills {
+		h.Release(f)
+	}
+	if o := quiesce("after releasing the fillers"); o != nil {
+		return *o
+	}
+	probe := simpleReq("probe")
+	probe.Method = "POST"
+	probe.BodyLen = 1000
+	sendReq(h, id, probe)
+	goods = append(goods, struct {
+		req peer.Req
+		id  uint32
+	}{probe, id})
+	if o := quiesce("after the probe"); o != nil {
+		return *o
+	}
+	evs := h.EventsCopy()
+	if ga := peer.GoAways(evs); len(ga) > 0 {
+		return fail("leak-goaway-late:"+peer.CodeName(ga[0].Code), "after %d offending streams (%q) the connection was torn down with GOAWAY(last=%d, %s, %q)", offending, c.Off, ga[0].Last, peer.CodeName(ga[0].Code), ga[0].Debug)
+	}
+	seen := h.SeenCopy()
+	got := peer.Assemble(evs)
+	for _, g := range goods {
+		if msg := checkSeen(g.req, seen); msg != "" {
+			return fail("leak-neighbour-request", "after %d offending streams (%q): %s (stream %d)", offending, c.Off, msg, g.id)
+		}
+		if msg := checkGot(g.req.Tag, h.Cfg.DefaultResp, got[g.id]); msg != "" {
+			return fail("leak-neighbour-response", "after %d offending streams (%q): %s (stream %d)", offending, c.Off, msg, g.id)
+		}
+	}
+	if peer.HasEOF(evs) {
+		return fail("eof", "connection closed after %d offending streams (%q)", offending, c.Off)
+	}
+	return Outcome{NonTrivial: offending >= 2 && sent > startConn, Classes: cls}
+}
+
+func c09LeakGen(t *rapid.T) c09LeakCase {
+	c := c09LeakCase{
+		Off:       rapid.SampledFrom(c09LeakOffs).Draw(t, "off"),
+		Chunk:     rapid.SampledFrom([]int{0, 1, 40, 300, 3000, 16000}).Draw(t, "chunk"),
+		PerStream: rapid.SampledFrom([]int{30000, 400000, 4000000}).Draw(t, "perstream"),
+		GoodEvery: rapid.SampledFrom([]int{0, 2, 5}).Draw(t, "goodevery"),
+		Windows:   rapid.SampledFrom([]int{12, 22}).Draw(t, "windows"),
+	}
+	if rapid.IntRange(0, 3).Draw(t, "padded") > 0 {
+		c.Pad = rapid.SampledFrom([]int{1, 2, 100, 256}).Draw(t, "pad")
+	}
+	if c.Chunk == 0 && c.Pad == 0 {
+		c.Pad = 256 // frames must cost something
+	}
+	return c
+}
+
 func TestC09(t *testing.T) {
 	s := newSuite(t, "C09",
-		"2..7 requests on one connection (MaxConcurrentStreams 2..4, MaxRequestBodySize 2000), each either well-formed (some with gated handlers) or one of the stream-scoped offences {malformed field at a generated position, content-length smaller/larger than the body, body over the limit, declared length over the limit, stream over the concurrency limit (refused), peer RST_STREAM after the headers / mid-body / while the handler runs / while the response is window-blocked, handler panic, stream WINDOW_UPDATE overflow / zero}, optionally followed by frames written before the peer could have read the server's reaction (DATA, DATA+END_STREAM, WINDOW_UPDATE, trailers); all blocks draw their fields from a shared vocabulary so later blocks index entries inserted by earlier, possibly offending, blocks; blocks optionally split. Oracle: no GOAWAY/EOF; every well-formed request, before or after, gets the exchange oracle of C01; a final probe request indexing the whole vocabulary is served. Non-trivial = at least one offence whose block carries vocabulary fields; distinct by case hash.")
+		"2..7 requests on one connection (MaxConcurrentStreams 2..4, MaxRequestBodySize 2000), each either well-formed (some with gated handlers) or one of the stream-scoped offences {malformed field at a generated position, content-length smaller/larger than the body, body over the limit, declared length over the limit, stream over the concurrency limit (refused), peer RST_STREAM after the headers / mid-body / while the handler runs / while the response is window-blocked, handler panic, stream WINDOW_UPDATE overflow / zero}, optionally followed by frames written before the peer could have read the server's reaction (DATA, DATA+END_STREAM, WINDOW_UPDATE, trailers); all blocks draw their fields from a shared vocabulary so later blocks index entries inserted by earlier, possibly offending, blocks; blocks optionally split. Oracle: no GOAWAY/EOF; every well-formed request, before or after, gets the exchange oracle of C01; a final probe request indexing the whole vocabulary is served. Leak lane: one offence (malformed / body over the limit / declared length over the limit / refused) repeated on stream after stream, each followed by in-flight DATA (0..16000 octets per frame, padding 0..255) sent strictly within the windows the server advertised, until 1.2 or 2.2 initial connection windows have moved (or 60000 frames); oracle: at quiescence the sender's ledger still allows a MaxRequestBodySize upload (else conn-window-starved), no GOAWAY, interleaved uploads and the final probe are served. Non-trivial = at least one offence whose block carries vocabulary fields, or (leak lane) >=2 offending streams and more than one connection window moved; distinct by case hash.")
 	defer s.finish()
 	runLane(s, Lane[c09Case]{Name: "offences", Journal: true, Quick: 4000, Thor: 2000000, Gen: c09Gen, Run: c09Run})
+	runLane(s, Lane[c09LeakCase]{Name: "leak", Journal: true, Quick: 24, Thor: 6000, Gen: c09LeakGen, Run: c09LeakRun})
 }
